@@ -11,6 +11,9 @@ from domains import KB, KBEval, type_info
 from rules import jit
 from rules import a64hsem as T
 from rules.a64hsem import Lin, M64, add, sub, mul, neg, scale, xor, const, atom, hi, ror, amount
+import os as _os
+
+STRICT_FAMILY = bool(_os.environ.get('RXVERIF_STRICT_FAMILY'))
 
 IMMS = T.IMMS
 HANDLERS = T.HANDLERS
@@ -380,6 +383,9 @@ class RvExec:
 
 
 def rule_hsem(ctx, R, arch='rv64'):
+    if STRICT_FAMILY:
+        R.note('rule_hsem skipped: RXVERIF_STRICT_FAMILY=1 (emitted-code / executor evaluation on terms switched off, see DESIGN.md 9.2)')
+        return
     F, hs = jit.handlers(ctx, arch)
     R.rule('RV-HSEM', 'for the ten integer register-form instructions the 16- / 32-bit words the RV64 handler and its emit helpers produce, given their architectural meaning on a register file of terms over r0..r7, leave in the eight VM '
            'registers exactly the terms of specification 5.2 (sign-extended immediate when src == dst, shift, displacement for r5, rotation counts mod 64); for every dst x src, every shift, 16 boundary immediates (rotation: all 64 counts)', min_instances=2500)
@@ -467,6 +473,9 @@ def rule_hsem(ctx, R, arch='rv64'):
 
 
 def rule_ss_hsem(ctx, R):
+    if STRICT_FAMILY:
+        R.note('rule_ss_hsem skipped: RXVERIF_STRICT_FAMILY=1 (emitted-code / executor evaluation on terms switched off, see DESIGN.md 9.2)')
+        return
     """SuperscalarHash emitter of the scalar RV64 back-end (IMUL_RCP is excluded: its multiplier comes from the literal pool, see RV-RCPPOOL)"""
     from rules import x86hsem as X
     F, hs = jit.handlers(ctx, 'rv64')
@@ -593,6 +602,9 @@ class MemMachine(Machine):
 
 
 def rule_mem_hsem(ctx, R):
+    if STRICT_FAMILY:
+        R.note('rule_mem_hsem skipped: RXVERIF_STRICT_FAMILY=1 (emitted-code / executor evaluation on terms switched off, see DESIGN.md 9.2)')
+        return
     from rules import x86hsem as X
     F, hs = jit.handlers(ctx, 'rv64')
     R.rule('RV-MEM-HSEM', 'for the six memory-form integer instructions and ISTORE the words the RV64 handler and its address helpers emit, given their architectural meaning on terms with x5 as the scratchpad base and the mask registers holding the '
